@@ -289,7 +289,8 @@ def run_case(case, reports=False, keep_objects=False):
             # the same step functions as coroutines (behave.api.async_step): outcome, status and order must not differ
             from behave.api.async_step import async_run_until_complete
 
-            @async_run_until_complete
+            # (both forms of the decorator: bare, and with a timeout that is never reached)
+            @(async_run_until_complete(timeout=30) if cfg.get("async_timeout") else async_run_until_complete)
             async def realise_async(ctx, org, k):
                 import asyncio
                 await asyncio.sleep(0)
@@ -383,6 +384,9 @@ def run_case(case, reports=False, keep_objects=False):
                     ctx.ra = el
                 elif nm == "before_scenario":
                     ctx.sa = el
+                    if cfg.get("cont_by_hook"):
+                        # the per-scenario switch set by a hook (class-wide default is the opposite, see below)
+                        a[0].continue_after_failed_step = bool(cfg.get("cont", False))
                 if prog.get("hookcl") and nm in ("before_all", "after_all", "before_feature", "before_rule", "before_scenario", "after_scenario"):
                     # the hook registers a cleanup of its own in the current scope
                     def hook_cleanup(cid=500 + hookn[0]):
@@ -408,13 +412,23 @@ def run_case(case, reports=False, keep_objects=False):
                     ftext = case.get("fault_text") or "hookfault%d" % hookn[0]      # (fault_text: exception text chosen by the caller)
                     if fault_kind == "assert":
                         raise AssertionError(ftext)
+                    if case.get("fault_text") is None:
+                        # exceptions of every shape: with a text, without any argument (a bare failing assert, `raise Exception`),
+                        # with several arguments
+                        shape = hookn[0] % 5
+                        if shape == 1:
+                            raise AssertionError()
+                        if shape == 2:
+                            raise Exception()
+                        if shape == 3:
+                            raise LookupError("hookfault", hookn[0], {"why": "several arguments"})
                     raise RuntimeError(ftext)
             return h
         runner.hooks = {n: mk(n) for n in HOOKS}
         config.base_dir = os.getcwd()
         runner.formatters = make_formatters(config, config.outputs)
         saved_cont = Scenario.continue_after_failed_step
-        Scenario.continue_after_failed_step = bool(cfg.get("cont", False))
+        Scenario.continue_after_failed_step = bool(cfg.get("cont", False)) != bool(cfg.get("cont_by_hook"))
         try:
             failed = runner.run()
         except BaseException as x:      # noqa -- recorded, judged by C01.crash / C12.contained
